@@ -131,7 +131,7 @@ def _shard_entry(args):
         return ("err", traceback.format_exc())
 
 
-def shard_map(fn_mod, fn_name, items, extra=None, procs=None, chunk=None):
+def shard_map(fn_mod, fn_name, items, extra=None, procs=None, chunk=None, fresh=False):
     """Run `fn(chunk_of_items, extra)` in worker processes (spawned fresh so pedal state is isolated).
 
     Returns the concatenation of the lists returned by fn. A worker exception is a machinery error.
@@ -146,7 +146,8 @@ def shard_map(fn_mod, fn_name, items, extra=None, procs=None, chunk=None):
     chunks = [items[i:i + chunk] for i in range(0, len(items), chunk)]
     ctx = mp.get_context("fork")
     out = []
-    with ctx.Pool(min(procs, len(chunks))) as pool:
+    # fresh: every chunk gets a process of its own (process-wide state of the library must not carry over)
+    with ctx.Pool(min(procs, len(chunks)), maxtasksperchild=1 if fresh else None) as pool:
         for status, val in pool.imap(_shard_entry, [(fn_mod, fn_name, c, extra) for c in chunks]):
             if status == "err":
                 raise MachineryError("worker failed:\n" + val)
